@@ -12,14 +12,17 @@ mod c04;
 mod ck;
 mod graphs;
 mod c05;
+mod c06;
 mod c07;
 mod c08;
+mod c09;
 mod c14;
 mod c10;
 mod c15;
 mod c16;
 mod c17;
 mod c18;
+mod c19;
 mod c20;
 #[allow(dead_code)]
 mod probe;
@@ -78,14 +81,17 @@ fn main() {
         "C13" => ck::c13(&mut ctx),
         "C04" => c04::run(&mut ctx),
         "C05" => c05::run(&mut ctx),
+        "C06" => c06::run(&mut ctx),
         "C07" => c07::run(&mut ctx),
         "C08" => c08::run(&mut ctx),
+        "C09" => c09::run(&mut ctx),
         "C14" => c14::run(&mut ctx),
         "C10" => c10::run(&mut ctx),
         "C15" => c15::run(&mut ctx),
         "C16" => c16::run(&mut ctx),
         "C17" => c17::run(&mut ctx),
         "C18" => c18::run(&mut ctx),
+        "C19" => c19::run(&mut ctx),
         "C20" => c20::run(&mut ctx),
         other => {
             eprintln!("no oracle for {}", other);
